@@ -108,4 +108,10 @@ PROPS = {
         "level_note": "Full at operation granularity for the node/item ledger. Which goroutine frees and when is abstracted (the barrier contract is C16/C17); blocks of rejected Puts, the store sentinels and the blocks allocated by LoadFromDisk are covered by the allocator oracle, not by the ledger theorem.",
         "assumptions": ["barrier contract (C16/C17)", "operation-granularity interleaving"],
     },
+    "C03": {
+        "runs": [run("nitro", 1200, 20000)],
+        "level_text": "Theorem nitro_linearizable for every comparator, every initial store satisfying the store invariant, ANY number of writers/programs and ALL schedules: the store invariant is preserved, a ghost log in which every operation is entered at a step between its call and return (a losing Delete right behind the Delete that decided it) replays sequentially on the set specification with the recorded results and ends in the store's content, and it contains exactly each writer's completed operations in program order; quiescent_counts: the writers' counts add up to the change of the set and their garbage lists hold exactly this epoch's dead versions once. Tied to nitro.go by schedule replay of real writer goroutines parked before the level-0 publish CAS and between GetNode and DeleteNode: labels, per-op results with node identities, final physical store and writer counts must equal the model's; oracle: brute-force linearizability of the call/return history and 'the next snapshot is the outcome of a linearization'.",
+        "level_note": "Partial by layering: full proof assuming the skiplist is an atomic ordered-set object whose insert fails iff the (pred, succ) adjacency changed; that assumption is C13 (tied by the step-machine replay there). Upper-level linking and same-epoch physical deletion run without preemption in this tie; the finer interleavings are exercised by the C04/C13 runs.",
+        "assumptions": ["skiplist insert/delete atomic at this level (C13)", "sync/atomic sequentially consistent; plain reads of Item.deadSn atomic (amd64)", "one writer per goroutine, no NewSnapshot during the window"],
+    },
 }
